@@ -38,7 +38,7 @@ class Gen:
     """one schema = rules {name: type}; root rule is r0"""
 
     def __init__(self, rng, odd_keys):
-        self.rng, self.rules, self.odd = rng, [], odd_keys
+        self.rng, self.rules, self.odd, self.in_group = rng, [], odd_keys, False
 
     def key(self):
         return self.rng.choice(KEYS_ODD if (self.odd and self.rng.random() < 0.6) else KEYS_PLAIN)
@@ -65,8 +65,22 @@ class Gen:
         if depth <= 0 or x < 0.3:
             return self.scalar()
         if x < 0.58:
-            if r.random() < 0.15:
+            y = r.random()
+            if y < 0.15:
                 return ("wmap", self.typ(depth - 1))
+            if y < 0.3 and not self.in_group:
+                # group choice inside a map: { m1 // m2 }. Kept to the shape on which the crate's verdicts are sound
+                # (pairwise different keys, no optional member, no group choice nested in an alternative).
+                n1, n2 = r.choice([1, 1, 2]), r.choice([1, 1, 2])
+                keys = []
+                while len(keys) < n1 + n2:
+                    k = self.key()
+                    if k not in keys:
+                        keys.append(k)
+                self.in_group = True
+                alts = [[(k, False, self.typ(depth - 1)) for k in keys[:n1]], [(k, False, self.typ(depth - 1)) for k in keys[n1:]]]
+                self.in_group = False
+                return ("gmap", alts)
             n = r.choice([1, 2, 2, 3, 4])
             keys = []
             while len(keys) < n:
@@ -79,6 +93,12 @@ class Gen:
                 occ = r.choice([(0, None), (1, None), (0, 3), (2, 3), (1, 4), (2, 2)])
                 return ("harr", occ, self.typ(depth - 1))
             n = r.choice([1, 2, 3])
+            if r.random() < 0.2 and not self.in_group:
+                # group choice inside an array, alternatives of equal length: [ a, b // c, d ]
+                self.in_group = True
+                alts = [[self.typ(depth - 1) for _ in range(n)] for _ in range(2)]
+                self.in_group = False
+                return ("gtuple", alts)
             items = [self.typ(depth - 1) for _ in range(n)]
             opt = self.typ(depth - 1) if r.random() < 0.3 else None
             return ("tuple", items, opt)
@@ -124,6 +144,10 @@ def show(t, nested=True):
         return "{ " + ", ".join("%s%s: %s" % ("? " if o else "", qtext(key), show(ty)) for key, o, ty in t[1]) + " }"
     if k == "wmap":
         return "{ * tstr => %s }" % show(t[1])
+    if k == "gmap":
+        return "{ " + " // ".join(", ".join("%s%s: %s" % ("? " if o else "", qtext(key), show(ty)) for key, o, ty in ms) for ms in t[1]) + " }"
+    if k == "gtuple":
+        return "[ " + " // ".join(", ".join(show(x) for x in items) for items in t[1]) + " ]"
     if k == "harr":
         return "[ %s %s ]" % (occ_text(t[1]), show(t[2]))
     if k == "tuple":
@@ -185,6 +209,10 @@ def valid(t, v, rules):
         return True
     if k == "wmap":
         return isinstance(v, dict) and all(valid(t[1], x, rules) for x in v.values())
+    if k == "gmap":
+        return any(valid(("map", ms), v, rules) for ms in t[1])
+    if k == "gtuple":
+        return any(valid(("tuple", items, None), v, rules) for items in t[1])
     if k == "harr":
         lo, hi = t[1]
         return isinstance(v, list) and lo <= len(v) and (hi is None or len(v) <= hi) and all(valid(t[2], x, rules) for x in v)
@@ -200,6 +228,33 @@ def valid(t, v, rules):
     if k == "ref":
         return valid(dict(rules)[t[1]], v, rules)
     raise ValueError(k)
+
+
+def trusted(t, v, rules):
+    """False where the label of the reference semantics is not used as an expectation: inside a map with a group choice the
+    crate does not report members that belong to another alternative (a verdict defect outside C14, see design.d/C14.md)"""
+    k = t[0]
+    if k == "map" and isinstance(v, dict):
+        return all(trusted(ty, v[key], rules) for key, _, ty in t[1] if key in v)
+    if k == "wmap" and isinstance(v, dict):
+        return all(trusted(t[1], x, rules) for x in v.values())
+    if k == "gmap" and isinstance(v, dict):
+        hit = [ms for ms in t[1] if any(key in v for key, _, _ in ms)]
+        if len(hit) > 1:
+            return False
+        return all(trusted(("map", ms), v, rules) for ms in hit)
+    if k == "harr" and isinstance(v, list):
+        return all(trusted(t[2], x, rules) for x in v)
+    if k == "tuple" and isinstance(v, list):
+        tys = list(t[1]) + ([t[2]] if t[2] is not None else [])
+        return all(trusted(ty, x, rules) for ty, x in zip(tys, v))
+    if k == "gtuple" and isinstance(v, list):
+        return all(trusted(ty, x, rules) for items in t[1] for ty, x in zip(items, v))
+    if k == "choice":
+        return all(trusted(x, v, rules) for x in t[1])
+    if k == "ref":
+        return trusted(dict(rules)[t[1]], v, rules)
+    return True
 
 
 def rand_scalar(rng):
@@ -237,6 +292,10 @@ def inhabit(rng, t, rules):
     if k == "wmap":
         keys = rng.sample(KEYS_PLAIN + KEYS_ODD[:6], rng.choice([0, 1, 2, 3]))
         return {key: inhabit(rng, t[1], rules) for key in keys}
+    if k == "gmap":
+        return inhabit(rng, ("map", rng.choice(t[1])), rules)
+    if k == "gtuple":
+        return inhabit(rng, ("tuple", rng.choice(t[1]), None), rules)
     if k == "harr":
         lo, hi = t[1]
         n = rng.randint(lo, hi if hi is not None else lo + 3)
@@ -526,7 +585,7 @@ def gen_cases(rng, n_schemas):
         docs.append(("unrelated", None, rng.choice([rand_scalar(rng), [rand_scalar(rng)], {rng.choice(KEYS_PLAIN + KEYS_ODD): rand_scalar(rng)}, [], {}])))
         do_cbor = si % 2 == 0
         for cls, p, d in docs:
-            label = "valid" if valid(root, d, rules) else "invalid"
+            label = ("valid" if valid(root, d, rules) else "invalid") if trusted(root, d, rules) else "unlabelled"
             cases.append(mk("J", cls, label, text, json_text(d).encode(), d, p))
             if do_cbor:
                 cases.append(mk("C", cls, label, text, cbor_enc(d), d, p))
@@ -614,8 +673,16 @@ def own_findings():
 # ---------------------------------------------------------------------------
 
 def run(tier, seed):
+    import time
     res = Result(PROP, tier, seed)
+    phases, t_last = {}, [time.time()]
+
+    def phase(name):
+        now = time.time()
+        phases[name] = round(now - t_last[0], 1)
+        t_last[0] = now
     proved = common.prove(res, PROP, PROP_FILE, [EXTRACT])
+    phase("prove")
     if not proved:
         common.coq_build([EXTRACT])           # the models do not depend on the proofs: keep the oracle runnable
     # VERIF_C14_DRIVER: a pre-built driver binary (used only to test this check against mutated copies of the crate)
@@ -644,12 +711,15 @@ def run(tier, seed):
         mk("J", "corpus", "doc-malformed", "r0 = int\n", b"{"),
         mk("J", "corpus", "schema-malformed", "r0 = [ int\n", b"1"),
     ]
+    phase("build")
     cases = corpus + gen_cases(rng, n_schemas)
     lines = [line_of(c) for c in cases]
+    phase("generate")
 
     # ---- pass A: generation order ----
     out_a = common.run_tool(drv, lines)
 
+    phase("pass_a")
     # ---- pass B: every case again in another process, reversed order, after >= 100 unrelated calls ----
     order = list(range(len(cases)))[::-1]
     nchunk = max(1, min(common.NPROC, len(order) // 150))
@@ -669,15 +739,20 @@ def run(tier, seed):
         for j, o in zip(ix, part):
             out_b[j] = o
 
-    # ---- threads: 16 threads x 4 calls against a baseline, on a sample rich in multi-error lists ----
+    phase("pass_b")
+    # ---- threads: batches of 25 calls, 16 threads x 2 rounds against single-threaded baselines; sample rich in multi-error lists ----
     multi = [i for i, o in enumerate(out_a) if o.startswith("ERR\tValidation") and not o.startswith("ERR\tValidation\t1\t")]
-    others = [i for i in range(len(cases)) if i not in set(multi)]
-    n_thr = 260 if tier == "quick" else 4000
+    multi_set = set(multi)
+    others = [i for i in range(len(cases)) if i not in multi_set]
+    n_thr = 300 if tier == "quick" else 6000
     t_ix = list(range(len(corpus))) + rng.sample(multi, min(len(multi), n_thr * 2 // 3))
     t_ix += rng.sample(others, min(len(others), n_thr - len(t_ix) + len(corpus)))
-    t_lines = ["T\t%s\t%s\t%s\t16\t4" % (cases[i]["entry"], cases[i]["schema"].encode().hex(), cases[i]["doc"].hex()) for i in t_ix]
-    out_t = common.run_tool(drv, t_lines, shards=4)
-
+    BATCH = 25
+    t_batches = [t_ix[i:i + BATCH] for i in range(0, len(t_ix), BATCH)]
+    t_lines = ["TB\t16\t2\t" + "\t".join("%s:%s:%s" % (cases[i]["entry"], cases[i]["schema"].encode().hex(), cases[i]["doc"].hex()) for i in bt)
+               for bt in t_batches]
+    out_t = common.run_tool(drv, t_lines, shards=4, multi=True)
+    phase("threads")
     # ---- the generated table, as Coq has it ----
     ktab = common.run_tool(orc, ["K\t%d\t%d" % (e, c) for e in (0, 1) for c in (0, 1, 2)] + ["KD\t0", "KD\t1"], shards=1)
     table = {"J": {0: ktab[0], 1: ktab[1], 2: ktab[2]}, "C": {0: ktab[3], 1: ktab[4], 2: ktab[5]}}
@@ -753,6 +828,9 @@ def run(tier, seed):
         if lab == "both-malformed" and (r["v"] == "OK" or r["kind"] not in (table[c["entry"]][0], table[c["entry"]][1])):
             viol("%s: malformed schema and malformed document reported as %s" % (en, r["kind"] or "Ok"), c, impl=a)
             continue
+        if lab == "unlabelled" and r["v"] == "ERR" and r["kind"] != "Validation":
+            viol("%s: a well-formed schema and a well-formed document are reported as Error::%s" % (en, r["kind"]), c, impl=a)
+            continue
         if lab == "cbor-trailing" and r["v"] == "OK":
             trailing_accepted += 1
         # (c) locations
@@ -778,7 +856,9 @@ def run(tier, seed):
                     if mp.startswith(jl) or jl.startswith(mp):
                         comparable[0] += 1
 
+    phase("evaluate")
     loc_res = common.run_tool(orc, loc_queries)
+    phase("oracle")
     evaluations += len(loc_res)
     slash_seen, n_strict = 0, 0
     for (i, loc, reason, jl), rr in zip(loc_meta, loc_res):
@@ -816,18 +896,26 @@ def run(tier, seed):
             if not observed[e][cc]:
                 res.violation("generator degenerate: no %s case of class %d reached an error" % (e, cc), {"kind": "generator"}, no_input=True)
 
-    # (d) threads
+    # (d) threads: batches of 25 different calls, 16 threads x 2 rounds each, all compared with single-threaded baselines
     thread_runs, thread_calls = 0, 0
-    for i, o in zip(t_ix, out_t):
-        c = cases[i]
-        f = o.split("\t")
-        thread_runs += 1
-        if f[0] == "SAME":
-            thread_calls += int(f[1])
-            if "\t".join(f[2:]) != out_a[i]:
-                viol("%s: the call made in the thread test differs from the earlier call: %s vs %s" % (ENTRY_NAME[c["entry"]], "\t".join(f[2:])[:300], out_a[i][:300]), c, impl=out_a[i], impl_later=o)
+    if len(out_t) != len(t_batches):
+        res.violation("thread test: %d result lines for %d batches (the driver died?)" % (len(out_t), len(t_batches)), {"kind": "threads"}, no_input=True)
+    for bt, o in zip(t_batches, out_t):
+        f = o.split("\t||\t")
+        head = f[0].split("\t")
+        if head[0] == "SAME" and len(f) == len(bt) + 1:
+            thread_runs += len(bt)
+            thread_calls += int(head[1])
+            for i, base in zip(bt, f[1:]):
+                if base != out_a[i].replace("UNSTABLE\t", ""):
+                    viol("%s: the call made on the main thread of the thread test differs from the earlier call: %s vs %s"
+                         % (ENTRY_NAME[cases[i]["entry"]], base[:300], out_a[i][:300]), cases[i], impl=out_a[i], impl_later=base)
+        elif head[0] == "DIFF":
+            i = bt[int(head[1])]
+            viol("%s: with 16 threads calling concurrently, a thread got a result different from the single-threaded baseline: %s"
+                 % (ENTRY_NAME[cases[i]["entry"]], o[:600]), cases[i], impl=o)
         else:
-            viol("%s: 16 concurrent threads did not all get the baseline result: %s" % (ENTRY_NAME[c["entry"]], o[:500]), c, impl=o)
+            res.violation("thread test: unexpected driver output %s" % o[:200], {"kind": "threads"}, no_input=True)
     evaluations += thread_calls
 
     # known findings: replay the witnesses
@@ -841,7 +929,7 @@ def run(tier, seed):
 
     # vm_compute slice of the location queries: guards extraction and the OCaml tree parser
     if loc_queries:
-        k = min(len(loc_queries), 150)
+        k = min(len(loc_queries), 110)
         sl = rng.sample(range(len(loc_queries)), k)
         exprs = []
         for j in sl:
@@ -859,6 +947,7 @@ def run(tier, seed):
     else:
         k = 0
 
+    phase("vm_slice")
     split = verdicts["OK"] / max(1, verdicts["OK"] + verdicts["ERR"])
     if not (0.15 <= split <= 0.85):
         res.violation("generator degenerate: verdict split %.2f" % split, {"kind": "generator"}, no_input=True)
@@ -880,19 +969,19 @@ def run(tier, seed):
         "location_depth_histogram": {str(k): v for k, v in sorted(loc_depth_hist.items())},
         "error_lists_with_more_than_one_entry": n_multi, "longest_error_list": max_list,
         "locations_comparable_with_mutation_path": "%d/%d (statistic only)" % tuple(comparable),
-        "thread_runs": thread_runs, "thread_calls": thread_calls, "threads_per_run": 16,
+        "thread_runs": thread_runs, "thread_calls": thread_calls, "threads_per_run": 16, "thread_batch": "25 different calls per batch, each thread runs the batch twice from its own offset",
         "calls_repeated_in_second_process": len(cases), "warmup_calls_per_process": 100,
         "cbor_trailing_bytes_accepted": trailing_accepted,
         "kind_table_from_code": {ENTRY_NAME[e]: {n: table[e][c] for n, c in CLASS_CODE.items()} for e in ("J", "C")},
         "kind_table_distinct": {ENTRY_NAME[e]: table_distinct[e] for e in ("J", "C")},
         "global_state_scan": {"pattern": GLOBAL_STATE_PATTERN.pattern, "hits": gs, "baseline": GLOBAL_STATE_BASELINE, "new": new_gs},
-        "vm_compute_slice": k + 6,
+        "vm_compute_slice": k + 6, "phase_seconds": phases,
         "samples": [{"entry": c["entry"], "class": c["class"], "label": c["label"], "schema": c["schema"], "doc": c["doc"].decode("utf-8", "replace") if c["entry"] == "J" else c["doc"].hex(),
                      "impl": str(parse_out(a))[:300]} for c, a in list(zip(cases, out_a))[len(corpus):len(corpus) + 40:5]],
     })
     res.assumptions = [
         "the reference semantics of the generated fragment (lib/props/c14.py: valid) labels documents conforming / non-conforming; it is ordinary RFC 8610 on maps with literal keys, tuples, homogeneous arrays, choices, ranges, .size/.lt/.ge",
-        "thread schedules are only run (16 threads x 4 calls per sampled case), not enumerated",
+        "thread schedules are only run (batches of 25 calls; 16 threads each making every call of the batch twice, overlapping different calls), not enumerated",
         "cbor_location is compared only for documents whose keys are plain ASCII identifiers (Debug rendering of the key = the key in quotes)",
         "the walk model (Err/Walk.v) abstracts the validators' descent; the code's locations are checked per run, not proven",
     ]
